@@ -152,6 +152,13 @@ class GDataConverter(XMLSchemaConverter):
                 attributes[ns_name] = value
             elif not isinstance(value, MutableSequence) or not value:
                 ns_name = self.unmap_qname(name, xmlns=self.get_xmlns_from_data(value))
+                if isinstance(value, MutableSequence) and \
+                        xsd_element.match_child(ns_name) is None:
+                    # An empty list can be the value of an attribute of list type
+                    attr_name = self.unmap_qname(name, xsd_element.attributes)
+                    if attr_name in xsd_element.attributes:
+                        attributes[attr_name] = value
+                        continue
                 content.append((ns_name, value))
             elif isinstance(value[0], (MutableMapping, MutableSequence)):
                 ns_name = self.unmap_qname(name, xmlns=self.get_xmlns_from_data(value[0]))
